@@ -223,13 +223,6 @@ Proof.
     + eapply NF; exact Hg.
 Qed.
 
-(* per-id chained change sequences: what Store.OnChange delivers *)
-Fixpoint chain_ok (s : vstore V) (cs : list (change V)) : Prop :=
-  match cs with
-  | [] => True
-  | c :: r => st_get (fst (fst c)) s = snd (fst c) /\ nul_free (fst (fst c)) = true /\ chain_ok (apply_change s c) r
-  end.
-
 Definition inv (s : vstore V) (d : kdb) : Prop :=
   StronglySorted bltP d /\ (forall k, In k d <-> target idxs s k) /\ ids_nf s.
 
@@ -255,7 +248,7 @@ Proof.
   split; [apply update_idxs_SS; exact S|]. split; assumption.
 Qed.
 
-Lemma changes_chain : forall ms s,
+Lemma changes_chain : forall (ms : list (mutation V)) s,
   forallb (fun m => nul_free (mut_id m)) ms = true -> chain_ok s (changes_of s ms).
 Proof.
   induction ms as [|m ms IH]; intros s H; [exact I|].
